@@ -120,7 +120,7 @@ fn targets() -> Vec<Target> {
             guarded(AssertUnwindSafe(|| {
                 let mut st = ss::State::new();
                 ss::crypto_secretstream_xchacha20poly1305_init_pull(&mut st, &fx.stream_header, &fx.stream_key);
-                let mut m = vec![0u8; w.len().saturating_sub(17)];
+                let mut m = vec![0xC3u8; w.len().saturating_sub(17)];
                 let mut tag = 0u8;
                 ss::crypto_secretstream_xchacha20poly1305_pull(&mut st, &mut m, &mut tag, w, None).is_ok()
             }))
@@ -134,7 +134,7 @@ fn targets() -> Vec<Target> {
             guarded(AssertUnwindSafe(|| {
                 let mut st = ss::State::new();
                 ss::crypto_secretstream_xchacha20poly1305_init_pull(&mut st, &fx.stream_header, &fx.stream_key);
-                let mut m = vec![0u8; w.len().saturating_sub(17)];
+                let mut m = vec![0xC3u8; w.len().saturating_sub(17)];
                 let mut tag = 0u8;
                 ss::crypto_secretstream_xchacha20poly1305_pull(&mut st, &mut m, &mut tag, w, Some(b"ad")).is_ok()
             }))
@@ -170,7 +170,7 @@ fn targets() -> Vec<Target> {
         sample: Box::new(sign_sample),
         call: Box::new(|fx, w| {
             guarded(AssertUnwindSafe(|| {
-                let mut m = vec![0u8; w.len().saturating_sub(64)];
+                let mut m = vec![0xC3u8; w.len().saturating_sub(64)];
                 crypto_sign_open(&mut m, w, &fx.sign_pk).is_ok()
             }))
         }),
@@ -212,6 +212,20 @@ fn targets() -> Vec<Target> {
         call: Box::new(|fx, w| {
             guarded(AssertUnwindSafe(|| match SignedMessage::<SB<64>, Vec<u8>>::from_bytes(w) {
                 Ok(s) => s.verify(&SB::<32>::from(&fx.sign_pk)).is_ok(),
+                Err(_) => false,
+            }))
+        }),
+    });
+    v.push(Target {
+        name: "SignedMessage<Vec, Vec>::from_bytes->verify".into(),
+        overhead: 64,
+        sample: Box::new(sign_sample),
+        call: Box::new(|fx, w| {
+            guarded(AssertUnwindSafe(|| match SignedMessage::<Vec<u8>, Vec<u8>>::from_bytes(w) {
+                Ok(s) => {
+                    let _ = s.to_vec();
+                    s.verify(&fx.sign_pk.to_vec()).is_ok()
+                }
                 Err(_) => false,
             }))
         }),
